@@ -1,8 +1,8 @@
 #!/usr/bin/env python3
 """C08 — Copied and derived tables are independent; queries never change the parser.
 
-proof:          coq/Props/C08.v (CopyDecay semantics in the pure model of parse(); the model has no object identity, so
-                sharing itself is not expressible in it — PARTIAL)
+proof:          coq/Props/C08.v: CopyDecay semantics in the value model of parse() (Dec/Post.v); separation of the object graph
+                and independence of tables under in-place writes in the identity-carrying model (Dec/Heap.v, Dec/HeapProofs.v)
 correspondence: (a) histories of 1..12 public queries on one parser instance with recursive in-place mutation of every
                 returned structure, re-parse included; after every step the full snapshot (tables + declaration queries) is
                 compared with the model's and with a freshly parsed instance; (b) the object graph held after parse():
@@ -72,6 +72,42 @@ def snapshot(p, extra=None):
     for m in (extra or {}).get("expand", []):
         snap.append(["expand", m, guarded(lambda: p.expand_decay_modes(m))])
     return snap
+
+
+def canon_skeleton(sk):
+    """renumber object identities by first occurrence (Tree and Token objects separately named)"""
+    num = {}
+    out = []
+    for e in sk:
+        key = (e[0], e[1])
+        if key not in num:
+            num[key] = len(num)
+        out.append([e[0], num[key]] + list(e[2:]))
+    return out
+
+
+def skeleton_of(text):
+    """the object graph held after parse(): decay / model_alias trees of the file tree, then _parsed_decays, in preorder;
+    ("T", id, data, number of children) for a Tree, ("K", id, type) for a Token"""
+    from lark import Tree
+    try:
+        p, _ = decpost.parse(text)
+    except Exception as e:
+        return {"err": type(e).__name__}
+    roots = [t for t in p._parsed_dec_file.children if isinstance(t, Tree) and t.data in ("decay", "model_alias")]
+    roots += list(p._parsed_decays)
+    sk = []
+
+    def walk(n):
+        if isinstance(n, Tree):
+            sk.append(["T", id(n), str(n.data), len(n.children)])
+            for ch in n.children:
+                walk(ch)
+        else:
+            sk.append(["K", id(n), n.type])
+    for r in roots:
+        walk(r)
+    return canon_skeleton(sk)
 
 
 def impl_main(mode, fin, fout):
@@ -190,7 +226,7 @@ def impl_main(mode, fin, fout):
                     break
         except Exception as e:
             viol.append("exception " + type(e).__name__)
-        out.append(viol if mode == "oracle" else [first, steps])
+        out.append(viol if mode == "oracle" else [first, steps, skeleton_of(c["text"])])
     Path(fout).write_text(json.dumps(out))
 
 
@@ -254,9 +290,11 @@ def main():
     ck = Check("C08", args.tier, args.seed)
     tr_particles.main()
     ck.proofs("Props/C08.v", extra_trusted=[
-        "PARTIAL: the Coq model of parse() is purely functional, so object sharing cannot even be stated in it; independence of "
-        "copied/conjugated tables and of query results from parser state is established by the executed part of this check "
-        "(object-graph separation, write-through test, query histories with mutation of results) on generated files",
+        "Dec/Heap.v (hand-written): parse()'s post-processing on identity-carrying Tree/Token objects with a mutable token store; tied to "
+        "CPython/Lark by comparing, on every generated file, the object graph the model builds (file tree + tables, identities renumbered by "
+        "first occurrence) with the id()-graph of the real objects, and its tables with the value model's and the implementation's",
+        "PARTIAL: queries are pure readers in the model; that queries (and mutation of their results) leave the parser unchanged is "
+        "established by execution (query histories compared with a fresh parse)",
         "front end as C01"])
     cases = json.loads(Path(args.replay).read_text())["cases"] if args.replay else gen_cases(ck.rng, args.tier)
     impl = vlib.run_impl("c08.py", cases)
@@ -266,6 +304,33 @@ def main():
                            "fun v : val => v", terms, shard=60, preamble=pre)
     impl_tables = [v[0][0] if isinstance(v, list) else v for v in impl]
     diffs = vlib.compare_veq(ck, cases, impl_tables, model)
+    # the identity-carrying model (Dec/Heap.v): same tables as the value model, and the same object graph as the implementation
+    hterms = [f"vheap (parse_heap cc sc_of true {decpost.coq_stmts(c['stmts'])})" for c in cases]
+    hmodel = vlib.run_model("C08h", ["Lib.PyDict", "Decay.Conj", "Decay.GenTables", "Dec.Tables", "Dec.Syntax", "Dec.Post", "Dec.Heap"],
+                            "fun v : val => v", hterms, shard=30, preamble=pre)
+    heap_vs_value, heap_vs_impl, shared_tokens = [], [], 0
+    for i, (hv, mv, iv) in enumerate(zip(hmodel, model, impl)):
+        if isinstance(hv, dict) or isinstance(mv, dict):
+            # an error on either side: both models must report the same kind (ValueError for an undefined model word)
+            if hv != mv:
+                heap_vs_value.append(i)
+            continue
+        if hv[0] != mv:
+            heap_vs_value.append(i)
+        isk = iv[2] if isinstance(iv, list) and len(iv) > 2 else None
+        msk = canon_skeleton(hv[1])
+        if isk != msk:
+            heap_vs_impl.append(i)
+        ids = [tuple(e[:2]) for e in msk]
+        shared_tokens += len(ids) - len(set(ids))
+    ck.cov["evaluations"] += len(cases)
+    ck.cov["traces_validated_against_impl"] += len(cases) - len(heap_vs_impl)
+    ck.notes["heap_model"] = {"cases": len(cases), "tables_differ_from_value_model": len(heap_vs_value),
+                              "object_graph_differs_from_implementation": len(heap_vs_impl),
+                              "objects_occurring_twice_in_the_compared_graphs (file tree + tables; tokens the tables share with the file tree)": shared_tokens}
+    for i in heap_vs_value + heap_vs_impl:
+        if i not in diffs:
+            diffs.append(i)
     # histories: every step must leave the snapshot unchanged
     hist_bad = [i for i, v in enumerate(impl) if isinstance(v, list) and any(s is False for s in v[1])]
     orc = vlib.run_impl("c08.py", cases, mode="oracle")
